@@ -36,6 +36,16 @@ func omnibus(run *Run, o Omni, visit Visit) {
 			opts.Gen.MaxDepth = 3
 		}
 		scs := genScenarios(r, opts)
+		if bi%2 == 0 {
+			// a Terraform-like configuration whose references resolve (multi-byte identifiers included)
+			ts, cfg := tfScenario(r)
+			scs = append(scs, ts)
+			for _, h := range histories(r, cfg.Src, 2) {
+				w := newWorld()
+				pd := w.AddPath("root", tfSchema(), map[string]string{"main.tf": h}, genFunctions(r))
+				scs = append(scs, &Scenario{W: w, Main: pd, File: "main.tf", Src: []byte(h), Kind: "tf-history"})
+			}
+		}
 		for si, s := range scs {
 			run.Count("scenario_" + s.Kind)
 			loc := map[string]interface{}{"seed": run.Res.Seed, "base": bi, "scenario": si, "kind": s.Kind, "src": string(s.Src)}
